@@ -121,6 +121,7 @@ def dml_programs(tier):
     yield {"calls": [["from", T], ["select", [fa]], ["where", ["cmp", "=", fa, raw(1)]], ["top", 5]]}
     yield from alias_reuse_programs()
     yield from multi_branch_programs()
+    yield from chain_programs()
     yield {"calls": [["from", T], ["select", [fa, ["agg", "SUM", fb]]], ["where", ["cmp", "=", fa, raw(1)]],
                      ["groupby", [["as", ["arith", "+", fa, raw(2)], "g"]]], ["select", [["as", ["arith", "+", fa, raw(2)], "g"]]]]}
 
@@ -180,6 +181,51 @@ def multi_branch_programs():
     yield {"calls": [["from", T], ["select", [tp]], ["where", ["logic", "AND", ["between", fa, raw(1), raw(9)], ["in", fb, [raw("p"), raw("q"), raw("r")]]]]]}
     yield {"calls": [["from", T], ["select", [fa]], ["where", ["logic", "OR", ["logic", "AND", ["cmp", "=", fa, raw(1)], ["cmp", "=", fb, raw(2)]],
                                                                 ["logic", "AND", ["cmp", "=", fa, raw(3)], ["not", ["cmp", "=", fb, raw(4)]]]]]]}
+
+
+def chain_programs():
+    """connective chains of length 3-5 whose conjuncts all carry distinct values: left-deep, right-deep and balanced trees of one
+    connective, mixed connectives, and the same chain built by repeated where() / having() calls; in WHERE, HAVING, ON, CASE WHEN,
+    FILTER, UPDATE and DELETE"""
+    cols = [fa, fb, fa, fb, fa]
+    ops = ["=", ">", "<", ">=", "<>"]
+    vals = [1, "x'y", 3, 40.5, 77]
+
+    def leaf(i):
+        return ["cmp", ops[i], cols[i], raw(vals[i])]
+
+    def left_deep(op, n):
+        e = leaf(0)
+        for i in range(1, n):
+            e = ["logic", op, e, leaf(i)]
+        return e
+
+    def right_deep(op, n):
+        e = leaf(n - 1)
+        for i in range(n - 2, -1, -1):
+            e = ["logic", op, leaf(i), e]
+        return e
+
+    trees = []
+    for op in ("AND", "OR"):
+        for n in (3, 4, 5):
+            trees += [left_deep(op, n), right_deep(op, n)]
+        trees.append(["logic", op, ["logic", op, leaf(0), leaf(1)], ["logic", op, leaf(2), leaf(3)]])
+    trees.append(["logic", "OR", left_deep("AND", 3), leaf(3)])
+    trees.append(["logic", "AND", ["logic", "AND", ["logic", "OR", leaf(0), leaf(1)], leaf(2)], leaf(3)])
+    trees.append(["not", left_deep("AND", 3)])
+    for e in trees:
+        yield {"calls": [["from", T], ["select", [fa]], ["where", e], ["limit", 3]]}
+        yield {"calls": [["from", T], ["select", [["agg", "SUM", fa]]], ["groupby", [fb]], ["having", e]]}
+        yield {"calls": [["from", T], ["join", "inner", U, ["on", ["logic", "AND", ["cmp", "=", fid, utid], e]]], ["select", [fa]], ["where", ["cmp", "=", fb, raw(99)]]]}
+        yield {"calls": [["from", T], ["select", [["case", [[e, raw(10)]], raw(20)], fb]], ["where", ["cmp", "=", fb, raw(99)]]]}
+        yield {"calls": [["from", T], ["select", [["aggf", "SUM", fa, e], fb]], ["groupby", [fb]]]}
+        yield {"calls": [["update", T], ["set", "a", raw(5)], ["where", e]]}
+        yield {"calls": [["from", T], ["delete"], ["where", e]]}
+    for n in (3, 4, 5):
+        yield {"calls": [["from", T], ["select", [fa]]] + [["where", leaf(i)] for i in range(n)] + [["limit", 3]]}
+        yield {"calls": [["from", T], ["select", [["agg", "SUM", fa]]], ["groupby", [fb]]] + [["having", leaf(i)] for i in range(n)]}
+        yield {"calls": [["update", T], ["set", "a", raw(5)]] + [["where", leaf(i)] for i in range(n)]}
 
 
 def setop_programs(tier):
